@@ -1,5 +1,5 @@
 (* C09 instantiated on the generated grammar. *)
-From TI Require Import Bytes Grammar Nom Interp InterpFacts Thm_Sfx Thm_Crlf Natives.
+From TI Require Import Bytes Grammar Nom Interp InterpFacts Thm_Sfx Thm_Crlf Thm_Line Natives.
 From TI.gen Require Import ImapGrammar.
 From Coq Require Import Lia.
 
@@ -67,3 +67,53 @@ Proof.
   - eapply safe_lit; [vm_compute; reflexivity|vm_compute; reflexivity|vm_compute; reflexivity|].
     eapply safe_plain; vm_compute; reflexivity.
 Qed.
+
+(* ---------------------------------------------------------------- second clause: an accepted response without
+   literals ends exactly at the first CRLF *)
+Fixpoint sdefs_ok (k : N) (defs : list (option G)) : bool :=
+  match defs with
+  | [] => true
+  | og :: rest =>
+    match og with
+    | Some g => if is_tail_def k then stail is_tail_def g else all_nodes (node_inner is_tail_def) g
+    | None => true
+    end && sdefs_ok (N.succ k) rest
+  end.
+
+(* reflection: each of the top rules reads the terminating CRLF as the last thing on every accepting path *)
+Lemma strict_tail_holds : sdefs_ok 0 all_defs = true.
+Proof. vm_compute. reflexivity. Qed.
+
+Lemma sdefs_ok_nth : forall defs k j g, sdefs_ok k defs = true -> nth_error defs j = Some (Some g) ->
+  if is_tail_def (k + N.of_nat j) then stail is_tail_def g = true else all_nodes (node_inner is_tail_def) g = true.
+Proof.
+  induction defs as [|og defs IH]; intros k j g H Hn; [destruct j; discriminate|].
+  cbn [sdefs_ok] in H. apply andb_true_iff in H. destruct H as [H1 H2]. destruct j as [|j].
+  - cbn in Hn. injection Hn as ->. replace (k + N.of_nat 0) with k by lia. destruct (is_tail_def k); exact H1.
+  - cbn [nth_error] in Hn. replace (k + N.of_nat (S j)) with (N.succ k + N.of_nat j) by lia. eapply IH; eauto.
+Qed.
+
+Lemma env_line_ok : forall f g, env f = Some g ->
+  if is_tail_def f then stail is_tail_def g = true else all_nodes (node_inner is_tail_def) g = true.
+Proof.
+  intros f g H. unfold env in H. destruct (nth_error all_defs (N.to_nat f)) as [[g'|]|] eqn:E; try discriminate.
+  injection H as <-. pose proof (sdefs_ok_nth all_defs 0 (N.to_nat f) g' strict_tail_holds E) as Hk.
+  replace (0 + N.of_nat (N.to_nat f)) with f in Hk by lia. exact Hk.
+Qed.
+
+Lemma response_stail : stail is_tail_def def_parser_x_parse_response = true.
+Proof. vm_compute. reflexivity. Qed.
+
+Theorem accepted_line_ends_at_first_crlf_lemma : forall i a after r v u,
+  split_crlf i = Some (a, after) -> ends_brace a = false -> parse i = ROk r v u -> r = after /\ u = nlen a + 2.
+Proof.
+  intros i a after r v u Hs Hb H. unfold parse in H.
+  exact (accepted_line_ends_at_first_crlf native_call env (S (length i)) is_tail_def env_line_ok FUEL _ 0%nat response_stail i a after r v u Hs Hb H).
+Qed.
+
+(* non-vacuity: an accepted line followed by another one; the theorem's premises hold and the parse is an accept *)
+Example ends_at_first_crlf_example :
+  let i := bs "* 1 EXISTS" ++ [13; 10] ++ bs "* 2 EXISTS" ++ [13; 10] in
+  split_crlf i = Some (bs "* 1 EXISTS", bs "* 2 EXISTS" ++ [13; 10]) /\ ends_brace (bs "* 1 EXISTS") = false /\
+  exists v, parse i = ROk (bs "* 2 EXISTS" ++ [13; 10]) v 12.
+Proof. split; [vm_compute; reflexivity|]. split; [reflexivity|]. eexists. vm_compute. reflexivity. Qed.
